@@ -2,6 +2,7 @@ package main
 
 import (
 	"fmt"
+	"math/big"
 	"strings"
 
 	"verifharness/h"
@@ -211,6 +212,31 @@ func c19(c *Ctx) {
 							// the function still receives null after a trailing absent marked key
 							if !p.usesEmpty {
 								ec.Check = boolCheck(p.f(true, true))
+							}
+						}
+					}
+					// the same guard as a filter predicate over a one-element array: an unmarked absent key still
+					// fails the whole query; otherwise the element is kept iff the predicate is true
+					if n <= 3 && strings.HasPrefix(path, "$.") {
+						for _, p := range preds {
+							if p.usesEmpty {
+								continue
+							}
+							ecf := c.AddEval("$.w[@."+strings.TrimPrefix(path, "$.")+"."+p.name+"()].Count()", h.Obj("w", h.SliceAny(doc)), fmt.Sprintf("guard-in-filter:%d-keys:%s", n, res), true, nontriv)
+							switch res {
+							case "value":
+								ecf.Check = exactly(big.NewRat(map[bool]int64{true: 1, false: 0}[p.f(false, false)], 1))
+							case "null", "unspecified-end":
+								ecf.Check = exactly(big.NewRat(map[bool]int64{true: 1, false: 0}[p.f(true, true)], 1))
+							case "knf":
+								ecf.Check = func(o h.Outcome) string {
+									if o.Class != "knf" {
+										return "an absent unmarked key must fail with ErrKeyNotFound, in a filter predicate too; got " + o.Class
+									}
+									return ""
+								}
+							case "err", "knf-or-err":
+								ecf.Check = mustError
 							}
 						}
 					}
